@@ -35,6 +35,11 @@ def sweep_script(n, manual, plans):
         ls += ["@0 ito %d | 1.%d.0:X,T%d" % (k, k, (k + n // 2) % n), "@0 update"]
     if plans and n >= 2:
         ls += ["@0 pc %d %d" % (n - 1, 0), "@0 ito %d" % (n - 1), "@0 succeed %d" % (n - 1), "@0 update", "@0 update"]
+    # save / load round trips at the ends and in the middle of the id range (skipped by the harness where serialization is not compiled in)
+    for k in sorted({0, n // 2, (2 * n) // 3, n - 1}):
+        ls += ["@0 ito %d" % k, "@0 save", "@0 ito %d" % ((k + 1) % n), "@0 load -1", "@0 save", "@0 update"]
+    if n >= 2:
+        ls += ["@0 rt %d" % (n - 1), "@0 rt 0", "@0 with %d 0 1" % (n - 1), "@0 update"]
     return "\n".join(ls) + "\n"
 
 
@@ -87,6 +92,11 @@ def extra_c14(tier, seed):
             if v["error"]:
                 out["infra"].append("TLC failed for N=%d: %s" % (n, v["error"][-400:]))
             bad = [f for f in v["findings"] if f[0] == "C14"]
+            # findings of the other properties' monitors at this state count are kept for those properties' checks (props.check)
+            for f in v["findings"]:
+                if f[0] != "C14":
+                    out.setdefault("other_findings", []).append({"property": f[0], "N": n, "line": f[1], "why": f[2], "replay": os.path.join(vlib.EVIDENCE, "replays", f[0], "sweep_n%d" % n),
+                                                                  "script": base + ".script", "trace": base + ".tlc.ndjson", "profile_def": prof})
             # a conformance mismatch in this scenario means a transition to id k did not reach the k-th declared state
             if bad or v["rejected"]:
                 d = os.path.join(vlib.EVIDENCE, "replays", "C14", "n%d" % n)
@@ -100,7 +110,7 @@ def extra_c14(tier, seed):
                                "detail": v["rejected"][0]["detail"][:1500] if v["rejected"] else ""}, f, indent=1)
                 if bad or _dispatch_related(v["rejected"][0]):
                     out["findings"].append({"what": "N=%d: %s" % (n, what), "signature": "N=%d %s" % (n, what[:60]), "replay": d})
-            else:
+            elif not [f for f in v["findings"] if f[0] != "C14"]:
                 os.remove(base + ".tlc.ndjson")
     runs.sort(key=lambda r: r["N"])
     out["coverage"] = {"traces_validated_against_impl": sum(1 for r in runs if r["accepted"]),
